@@ -278,6 +278,10 @@ class CanAssignContext(Protocol):
     ) -> AbstractContextManager[None]:
         return qcore.empty_context
 
+    def has_assumed_compatibilities(self) -> bool:
+        """Whether we are inside an :meth:`assume_compatibility` context."""
+        return False
+
     def has_used_any_match(self) -> bool:
         """Whether Any was used to secure a match."""
         return False
